@@ -47,7 +47,8 @@ def gen_cases(ctx):
   for i in range(ctx.n):
     kind = ["prod", "prod", "kfl", "lattice", "pwl", "categorical"][i % 6]
     yield {"kind": kind, "seed": int(rng.randint(2**31 - 1)), "zeros": ["none", "one", "two", "many", "mixed", "tiny", "tiny_and_zero"][int(rng.randint(7))],
-           "exec": modes.pick(rng, (0.6, 0.4, 0.0), allow=("eager", "graph"))}
+           "exec": modes.pick(rng, (0.6, 0.4, 0.0), allow=("eager", "graph")),
+           "dtype": "float64" if (kind in ("prod", "kfl") and rng.rand() < .2) else "float32"}
 
 
 def _cmp(ctx, site, got, want, what, extra=None):
@@ -86,9 +87,11 @@ def _run_prod(ctx, case, st):
       flat[r, cols_[0]] = float(rng.choice([1e-8, -1e-12]))
       if len(cols_) > 1:
         flat[r, cols_[1]] = 0.0
-  t = np.moveaxis(flat.reshape(moved.shape), -1, ax).astype(np.float32)
+  dt = case.get("dtype", "float32")
+  ctx.cls("dtype:" + dt)
+  t = np.moveaxis(flat.reshape(moved.shape), -1, ax).astype(dt)
   T = tf.constant(t)
-  up = rng.normal(size=np.delete(np.array(shape), ax)).astype(np.float32)
+  up = rng.normal(size=np.delete(np.array(shape), ax)).astype(dt)
   ex = case.get("exec", "eager")
   ctx.cls("exec:" + ex)
 
@@ -119,7 +122,7 @@ def _kfl_reference(tf, x, kernel, scale, bias, units, dims, L, T, clip):
   """Same expression with tf.reduce_prod and plain tensor algebra."""
   if clip:
     x = tf.clip_by_value(x, 0.0, L - 1.0)
-  k = tf.constant(np.arange(L, dtype=np.float32))
+  k = tf.cast(tf.constant(np.arange(L, dtype=np.float32)), x.dtype)
   hw = 1.0 - tf.minimum(tf.abs(x[..., None] - k), 1.0)                  # (B, units, dims, L)
   Kr = tf.reshape(kernel[0], [L, units, dims, T])
   dot = tf.einsum("budl,ludt->budt", hw, Kr)
@@ -133,10 +136,13 @@ def _run_kfl(ctx, case, st):
   L, dims = int(rng.choice([2, 3, 4])), int(rng.randint(1, 5))
   units, T = int(rng.choice([1, 2])), int(rng.choice([1, 2, 3]))
   clip = bool(rng.rand() < .7)
-  layer = tfl.layers.KroneckerFactoredLattice(lattice_sizes=L, units=units, num_terms=T, clip_inputs=clip)
+  dt = case.get("dtype", "float32")
+  ctx.cls("dtype:" + dt)
+  layer = tfl.layers.KroneckerFactoredLattice(lattice_sizes=L, units=units, num_terms=T, clip_inputs=clip,
+                                              **({} if dt == "float32" else {"dtype": dt}))
   B = 5
   x = rng.uniform(0.05, L - 1.05, size=(B, units, dims))
-  x = np.where(np.abs(x - np.round(x)) < 0.02, x + 0.1, x).astype(np.float32)   # stay off the kinks
+  x = np.where(np.abs(x - np.round(x)) < 0.02, x + 0.1, x).astype(dt)   # stay off the kinks
   xin = x if units > 1 else x[:, 0, :]
   layer(tf.constant(xin))
   K = rng.normal(size=layer.kernel.shape).astype(np.float32)
@@ -156,7 +162,7 @@ def _run_kfl(ctx, case, st):
   layer.scale.assign(S)
   layer.bias.assign(bias)
   X = tf.constant(xin)
-  up = tf.constant(rng.normal(size=(B, units)).astype(np.float32))
+  up = tf.constant(rng.normal(size=(B, units)).astype(dt))
   ex = case.get("exec", "eager")
   ctx.cls("exec:" + ex)
   names = ("kernel", "scale", "bias", "inputs")
